@@ -5,7 +5,7 @@ import math
 from . import rule, info
 from ..program import AnalysisError, src, norm, ClassInfo
 from ..affine import linear, NotAffine
-from ..util import (is_name, calls_in, callee_qual, deref, ancestors, stmt_of, parent, kwarg)
+from ..util import (string_pieces, values_on, polarity, is_name, calls_in, callee_qual, deref, ancestors, stmt_of, parent, kwarg)
 from .c01 import model
 from .c02 import producers
 from ..pattern import match, matches
@@ -257,10 +257,17 @@ def formatter_exhaustive(ctx):
                    '' if ok else 'renders as %s' % (got,), node=node)
     # _format_path: P args by repr, T chunks by _format_t
     fu = ctx.unit('core._format_path')
-    jn = [n for n in fu.own_nodes() if isinstance(n, ast.BinOp) and isinstance(n.op, ast.Mod) and isinstance(n.left, ast.Constant)
-          and n.left.value == 'Path(%s)']
-    ctx.ob(len(jn) == 1, fu, 'paths render as Path(<parts>)')
-    lc = [n for n in fu.own_nodes() if isinstance(n, ast.ListComp)]
+    jn = []
+    for r in fu.own_nodes():
+        if isinstance(r, ast.Return) and r.value is not None:
+            pcs = string_pieces(deref(ctx.cfg(fu), ctx.cfg(fu).node_of(r), r.value))
+            if pcs and len(pcs) == 3 and pcs[0] == ('lit', 'Path(') and pcs[2] == ('lit', ')') and pcs[1][0] == 'val' \
+                    and pcs[1][2] == 's':
+                j = deref(ctx.cfg(fu), ctx.cfg(fu).node_of(r), pcs[1][1])
+                if matches(j, "', '.join($$x)"):
+                    jn.append(r)
+    ctx.ob(len(jn) == 1, fu, 'paths render as Path(<parts joined by comma>)')
+    lc = [n for n in fu.own_nodes() if isinstance(n, (ast.ListComp, ast.GeneratorExp))]
     ok = len(lc) == 1 and isinstance(lc[0].elt, ast.IfExp) and not lc[0].generators[0].ifs
     if ok:
         b0 = match(lc[0].elt.body, '_format_t($pt)')
@@ -535,17 +542,28 @@ def path_flattening(ctx):
     bi = match(lp[0].iter, '%s[$off:]' % parts)
     ctx.ob(bi is not None, u, 'all parts after an optional leading T are consumed in order: %s' % norm(lp[0].iter))
     offv = bi['off'] if bi else None
-    # leading T: base and offset
-    first = [n for n in u.node.body if isinstance(n, ast.If) and norm(n.test) == 'isinstance(%s[0], TType)' % parts]
-    ptv = None
-    ok = len(first) == 1 and len(first[0].body) == 2 and len(first[0].orelse) == 2
+    # leading T: base and offset -- decided on the values reaching the part loop on each edge of
+    # the `isinstance(parts[0], TType)` test (if/else, default-then-override, conditional expression ...)
+    fins = [n for n in u.node.body if isinstance(n, ast.Assign) and matches(n, 'self.path_t = $pt')]
+    ptv = match(fins[-1], 'self.path_t = $pt')['pt'] if fins else None
+    lpn = cfg.node_of(lp[0])
+    tests = [(n, polarity(n.ast, 'isinstance(%s[0], TType)' % parts)) for n in cfg.nodes if n.kind == 'test']
+    tests = [(n, e) for n, e in tests if e and lp[0] not in [a for a in ancestors(getattr(n, 'stmt', None) or n.ast)]]
+    ok = ptv is not None and offv is not None and len(tests) == 1
     if ok:
-        for st in first[0].body:
-            b1 = match(st, '$pt = %s[0]' % parts)
-            if b1:
-                ptv = b1['pt']
-        ok = ptv is not None and any(matches(st, '%s = 1' % offv) for st in first[0].body) and \
-            any(matches(st, '%s = T' % ptv) for st in first[0].orelse) and any(matches(st, '%s = 0' % offv) for st in first[0].orelse)
+        t, lead = tests[0]
+        other = 'false' if lead == 'true' else 'true'
+        ok = sorted(norm(v) for v in values_on(cfg, lpn, ptv, t, lead, entry_only=True)) == ['%s[0]' % parts] \
+            and sorted(norm(v) for v in values_on(cfg, lpn, offv, t, lead, entry_only=True)) == ['1'] \
+            and sorted(norm(v) for v in values_on(cfg, lpn, ptv, t, other, entry_only=True)) == ['T'] \
+            and sorted(norm(v) for v in values_on(cfg, lpn, offv, t, other, entry_only=True)) == ['0']
+    elif ptv is not None and offv is not None and not tests:
+        # conditional expressions (the normal form of a two-way choice)
+        d1 = [v for _, v in cfg.reaching_defs(lpn, ptv, split=False)]
+        d2 = [v for _, v in cfg.reaching_defs(lpn, offv, split=False)]
+        cond = 'isinstance(%s[0], TType)' % parts
+        ok = len(d1) == 1 and len(d2) == 1 and matches(d1[0], '%s[0] if %s else T' % (parts, cond)) \
+            and matches(d2[0], '1 if %s else 0' % cond)
     ctx.ob(ok, u, 'a leading T expression is the base, otherwise T itself')
     calls = [c for c in calls_in(u) if callee_qual(p, u, c) == 'core._t_child']
     ctx.ob(len(calls) == 2, u, 'two ways to extend: splice a recorded step, or add a path step')
@@ -565,7 +583,7 @@ def path_flattening(ctx):
     ok = len(wl) == 1 and bs is not None and matches(wl[0].test, '%s < len(%s)' % (bs['i'], norm(bs['sub'])))
     ctx.ob(ok, u, 'every step of a spliced expression is copied: %s' % [norm(x.test) for x in wl])
     fin = u.node.body[-1]
-    ctx.ob(matches(fin, 'self.path_t = %s' % ptv), u, 'the result is stored once, at the end')
+    ctx.ob(ptv is not None and matches(fin, 'self.path_t = %s' % ptv), u, 'the result is stored once, at the end')
     e = next((n for n in u.node.body if isinstance(n, ast.If)), None)
     ok = isinstance(e, ast.If) and norm(e.test) == 'not %s' % parts and norm(e.body[0]) == 'self.path_t = T'
     ctx.ob(ok, u, 'Path() is T')
